@@ -125,6 +125,7 @@ func runPath(P *Program, sol *Solver, fn *ssa.Function, params map[string]string
 	in.res = pr
 	t0 := time.Now()
 	defer func() {
+		defer in.gkillAll()
 		pr.WallMs = time.Since(t0).Milliseconds()
 		pr.Decisions = in.taken
 		pr.Steps = in.steps
@@ -228,6 +229,24 @@ func (in *Interp) computeAxioms() []*Term {
 					}
 					ax = append(ax, in.ts.Implies(in.ts.Eq(apps[i], apps[j]), argsEq))
 				}
+			}
+		}
+	}
+	// BLS shares bind their message: one share value cannot verify under the same key share for two different messages
+	// (it would make H(m) = H(m'), a hash collision). tbls.valid(poly, idx, msg, value).
+	{
+		var apps []*Term
+		for _, t := range in.ts.tab {
+			if t.op == OApp && t.s == "tbls.valid" && len(t.args) == 4 {
+				apps = append(apps, t)
+			}
+		}
+		sort.Slice(apps, func(i, j int) bool { return apps[i].id < apps[j].id })
+		for i := 0; i < len(apps); i++ {
+			for j := i + 1; j < len(apps); j++ {
+				a, b := apps[i], apps[j]
+				same := in.ts.And(in.ts.And(in.ts.Eq(a.args[0], b.args[0]), in.ts.Eq(a.args[1], b.args[1])), in.ts.Eq(a.args[3], b.args[3]))
+				ax = append(ax, in.ts.Implies(in.ts.And(in.ts.And(a, b), same), in.ts.Eq(a.args[2], b.args[2])))
 			}
 		}
 	}
